@@ -2,21 +2,38 @@
     (IdentifyGen.v, produced by /verif/tools/translate_identify.py) compute the same sets as the
     hand-written model Identify.v.
 
+    The generated functions take the ITERATION ORDER of sets (and of the collections that the
+    library builds from sets and dictionaries) as a parameter [py_order : pyorder]; every theorem
+    below holds for every order that is a permutation ([pyorder_ok]): the computed sets do not
+    depend on hash order, on the order of the adjacency lists, or on the order in which the
+    causal paths are enumerated.
+
     IdentifyGen.v is regenerated from the Python source on every verification run; this file is
     NOT regenerated.  If the source changes, the generated definitions change, and the proofs
     below either still go through (harmless rewrite) or fail to compile.
 
-    Main results (closed versions at the end of the file):
-    - [gen_helper_equiv]      the nested recursive helper, which removes edges of the networkx
+    Main results (generic in the vertex type; instances for [nat] as [_statement] /
+    [_statement_holds] at the end of the file):
+    - [gen_helper_spec] / [gen_helper_equiv]
+                              the nested recursive helper, which removes edges of the networkx
                               graph in place, recurses and puts the edges back: it returns a graph
                               with the same nodes and the same edges as the one it was given (the
                               restore really restores) and the set computed by [conf_search];
-    - [gen_confounders_equiv] [identify_confounders] = [confounders] (fuel sufficiency included);
-    - [gen_mediators_equiv]   [identify_mediators]   = [mediators]  (under the guard on
-                              [max_num_paths]; [gen_mediators_raises] when the guard fails);
-    - [gen_instruments_equiv] [identify_instruments] = [instruments] (under the guard);
-    - [gen_equiv_le4]         the three equivalences by exhaustive computation on all DAGs with at
-                              most 4 nodes (a BOUNDED theorem, independent of the proofs above).  *)
+                              the fuel [|V| + 1] suffices on a DAG;
+    - [gen_confounders_equiv] [identify_confounders] = [confounders];
+    - [gen_mediators_equiv]   [identify_mediators]   = [mediators]  when the enumeration of causal
+                              paths has at most [max_num_paths + 1] elements;
+      [gen_mediators_raises]  ValueError otherwise (the model ignores the limit);
+    - [gen_instruments_equiv] [identify_instruments] = [instruments] under the guard
+                              [gp_inst_guard]; [gen_instruments_raises]: ValueError otherwise;
+    - [gen_markov_boundary_equiv]  [identify_markov_boundary] = [Markov.markov_boundary]
+                              ([gen_markov_total_refuted]: the node whose identifier is the empty
+                              string is refused with ValueError);
+    - [gen_colliders_equiv]   [identify_colliders] = [Markov.identify_colliders] on graphs with
+                              arbitrary edge types, no hypothesis;
+    - [gen_equiv_le4]         the first three equivalences by exhaustive computation on all DAGs
+                              with at most 4 nodes, for two concrete iteration orders (a BOUNDED
+                              theorem, independent of the proofs above).  *)
 From Coq Require Import Relations.Relation_Operators.
 From CG Require Import Base Digraph DigraphProofs DSepProofs Identify IdentifyProofs InstrumentsGen Markov
   MarkovProofs PyRt IdentifyGen.
@@ -74,6 +91,26 @@ Section GenProofs.
   Variable A : Type.
   Variable eqb : A -> A -> bool.
   Hypothesis eqb_spec : forall x y, reflect (x = y) (eqb x y).
+  (** the iteration-order oracle: ANY function that returns a permutation of its argument *)
+  Variable ord : pyorder.
+  Hypothesis ord_ok : pyorder_ok ord.
+
+  Lemma gp_ord_in (X : Type) k (l : list X) x : In x (@ord X k l) <-> In x l.
+  Proof.
+    split; apply Permutation_in; [apply ord_ok|apply Permutation_sym, ord_ok].
+  Qed.
+
+  Lemma gp_ord_nodup (X : Type) k (l : list X) : NoDup l -> NoDup (@ord X k l).
+  Proof. intros H. apply (Permutation_NoDup (Permutation_sym (@ord_ok X k l)) H). Qed.
+
+  Lemma gp_ord_length (X : Type) k (l : list X) : length (@ord X k l) = length l.
+  Proof. apply Permutation_length, ord_ok. Qed.
+
+  Lemma gp_iter_set_in (X : Type) k (l : list X) x : In x (py_iter_set ord k l) <-> In x l.
+  Proof. apply gp_ord_in. Qed.
+
+  Lemma gp_iter_set_nodup (X : Type) k (l : list X) : NoDup l -> NoDup (py_iter_set ord k l).
+  Proof. apply gp_ord_nodup. Qed.
 
   Local Notation seteq l1 l2 := (forall z : A, In z l1 <-> In z l2).
 
@@ -207,12 +244,13 @@ Section GenProofs.
   Qed.
 
   (** All the edges leaving [n]: the graph obtained is [del_arcs_from g [n]] up to [geq]. *)
-  Lemma del_list_children (g : digraph A) n a b :
-    arc (del_list g n (union eqb (children eqb g n) [])) a b <-> arc g a b /\ a <> n.
+  Lemma del_list_children (g : digraph A) n cs a b :
+    (forall c, In c cs <-> arc g n c) ->
+    (arc (del_list g n cs) a b <-> arc g a b /\ a <> n).
   Proof.
-    rewrite del_list_arc. split.
+    intros Hcs. rewrite del_list_arc. split.
     - intros [Hab Hn]. split; [exact Hab|]. intros ->. apply Hn. split; [reflexivity|].
-      apply (@union_in A eqb eqb_spec). left. apply (@children_in A eqb eqb_spec). exact Hab.
+      apply Hcs. exact Hab.
     - intros [Hab Hn]. split; [exact Hab|]. intros [Heq _]. exact (Hn Heq).
   Qed.
 
@@ -255,18 +293,33 @@ Section GenProofs.
     intros [_ ->]. exact (Hnin Hc').
   Qed.
 
-  Lemma gp_succ_nodup (g : digraph A) n : NoDup (py_nx_successors eqb g n).
-  Proof. apply (@union_nil_nodup A eqb eqb_spec). Qed.
+  Lemma gp_succ_nodup k (g : digraph A) n : NoDup (py_nx_successors eqb ord k g n).
+  Proof. apply gp_ord_nodup. apply (@union_nil_nodup A eqb eqb_spec). Qed.
 
-  Lemma gp_succ_in (g : digraph A) n c : In c (py_nx_successors eqb g n) <-> arc g n c.
+  Lemma gp_succ_in k (g : digraph A) n c : In c (py_nx_successors eqb ord k g n) <-> arc g n c.
   Proof.
-    unfold py_nx_successors. rewrite (@union_in A eqb eqb_spec), (@children_in A eqb eqb_spec).
+    unfold py_nx_successors. rewrite gp_ord_in, (@union_in A eqb eqb_spec), (@children_in A eqb eqb_spec).
     simpl. tauto.
   Qed.
 
-  Lemma gp_pred_in (g : digraph A) n p : In p (py_nx_predecessors eqb g n) <-> arc g p n.
+  Lemma gp_pred_in k (g : digraph A) n p : In p (py_nx_predecessors eqb ord k g n) <-> arc g p n.
   Proof.
-    unfold py_nx_predecessors. rewrite (@union_in A eqb eqb_spec), (@parents_in A eqb eqb_spec).
+    unfold py_nx_predecessors. rewrite gp_ord_in, (@union_in A eqb eqb_spec), (@parents_in A eqb eqb_spec).
+    simpl. tauto.
+  Qed.
+
+  Lemma gp_children_nodup k (g : digraph A) n : NoDup (py_cg_get_children eqb ord k g n).
+  Proof. apply gp_ord_nodup. apply (@union_nil_nodup A eqb eqb_spec). Qed.
+
+  Lemma gp_children_in k (g : digraph A) n c : In c (py_cg_get_children eqb ord k g n) <-> arc g n c.
+  Proof.
+    unfold py_cg_get_children. rewrite gp_ord_in, (@union_in A eqb eqb_spec), (@children_in A eqb eqb_spec).
+    simpl. tauto.
+  Qed.
+
+  Lemma gp_parents_in k (g : digraph A) n p : In p (py_cg_get_parents eqb ord k g n) <-> arc g p n.
+  Proof.
+    unfold py_cg_get_parents. rewrite gp_ord_in, (@union_in A eqb eqb_spec), (@parents_in A eqb eqb_spec).
     simpl. tauto.
   Qed.
 
@@ -338,7 +391,7 @@ Section GenProofs.
   (** * 5. The nested helper of [identify_confounders] *)
 
   Local Notation gen_helper :=
-    (gen__identify_confounders_no_checks_no_descendant_pruning_networkx eqb).
+    (gen__identify_confounders_no_checks_no_descendant_pruning_networkx eqb ord).
 
   (** The specification proved by induction on the fuel: on a well-formed graph on which the
       model search succeeds, the generated helper returns normally, the graph it returns has the
@@ -421,35 +474,37 @@ Section GenProofs.
     cbn [gen__identify_confounders_no_checks_no_descendant_pruning_networkx].
     unfold py_top at 1. rewrite py_for_loop. unfold py_list at 1.
     (* first loop: the edges leaving n1 *)
-    rewrite (@gp_rm_loop_nx n1 _ _ (fun _ _ _ => eq_refl) _ G py_list_empty (gp_succ_nodup G n1)
-               (fun c Hc => proj1 (gp_succ_in G n1 c) Hc)).
-    set (G1 := del_list G n1 (py_nx_successors eqb G n1)).
+    rewrite (@gp_rm_loop_nx n1 _ _ (fun _ _ _ => eq_refl) _ G py_list_empty (gp_succ_nodup _ G n1)
+               (fun c Hc => proj1 (gp_succ_in _ G n1 c) Hc)).
+    match goal with |- context [del_list G n1 ?cs] => set (cs1 := cs) end.
+    set (G1 := del_list G n1 cs1).
     assert (HG1 : forall a b, arc G1 a b <-> arc G a b /\ a <> n1)
-      by (intros a b; apply del_list_children).
+      by (intros a b; apply del_list_children; intros c; apply gp_succ_in).
     (* second loop: the edges leaving n2 *)
     rewrite py_for_loop. unfold py_list at 1.
-    rewrite (@gp_rm_loop_nx n2 _ _ (fun _ _ _ => eq_refl) _ G1 _ (gp_succ_nodup G1 n2)
-               (fun c Hc => proj1 (gp_succ_in G1 n2 c) Hc)).
-    set (G2 := del_list G1 n2 (py_nx_successors eqb G1 n2)).
+    rewrite (@gp_rm_loop_nx n2 _ _ (fun _ _ _ => eq_refl) _ G1 _ (gp_succ_nodup _ G1 n2)
+               (fun c Hc => proj1 (gp_succ_in _ G1 n2 c) Hc)).
+    match goal with |- context [del_list G1 n2 ?cs] => set (cs2 := cs) end.
+    set (G2 := del_list G1 n2 cs2).
     assert (HG2 : forall a b, arc G2 a b <-> arc G a b /\ a <> n1 /\ a <> n2).
-    { intros a b. unfold G2. rewrite (del_list_children G1 n2 a b), HG1. tauto. }
+    { intros a b. unfold G2.
+      rewrite (@del_list_children G1 n2 cs2 a b (fun c => gp_succ_in _ G1 n2 c)), HG1. tauto. }
     assert (Hv2 : verts G2 = verts G).
     { unfold G2, G1. rewrite !del_list_verts. reflexivity. }
     assert (Hg2m : geq G2 Gm).
     { split; [exact Hv2|]. intros a b. unfold Gm.
       rewrite HG2, (@del_arcs_arc A eqb eqb_spec). simpl. intuition congruence. }
     assert (Hwf2 : wf G2) by exact (geq_wf (geq_sym Hg2m) Hwfm).
-    set (re := py_list_empty ++ map (pair n1) (py_nx_successors eqb G n1)
-               ++ map (pair n2) (py_nx_successors eqb G1 n2)).
+    set (re := py_list_empty ++ map (pair n1) cs1 ++ map (pair n2) cs2).
     rewrite <- app_assoc. fold re.
     (* third loop: the predecessors of n1 *)
     rewrite py_for_loop. unfold py_list at 1.
-    match goal with |- context [py_loop _ _ ?b] =>
+    match goal with |- context [py_loop ?ps _ ?b] =>
       destruct (@gp_parents_loop fuel Gm n2 b IH Hwfm (fun _ _ _ => eq_refl)
-                  (py_nx_predecessors eqb G2 n1) G2 py_set_empty Hwf2 Hg2m)
+                  ps G2 py_set_empty Hwf2 Hg2m)
         as (G3 & conf & Hloop & Hwf3 & Hg3m & Hconf)
     end.
-    { intros p Hp. apply gp_pred_in in Hp.
+    { intros p Hp. apply (proj1 (gp_pred_in _ G2 n1 p)) in Hp.
       apply (@id_collect_all_some A eqb _ _ _ HC).
       apply (in_map (fun p => if memb eqb p (anc eqb Gm n2) then Some [p]
                               else conf_search eqb fuel Gm p n2)).
@@ -468,22 +523,23 @@ Section GenProofs.
       rewrite in_app_iff, !in_map_iff. split.
       + intros Hab.
         destruct (eqb_spec a n1) as [->|Hn1].
-        { right. left. exists b. split; [reflexivity|]. apply gp_succ_in. exact Hab. }
+        { right. left. exists b. split; [reflexivity|]. apply (proj2 (gp_succ_in _ G n1 b)). exact Hab. }
         destruct (eqb_spec a n2) as [->|Hn2].
-        { right. right. exists b. split; [reflexivity|]. apply gp_succ_in, HG1. split; assumption. }
+        { right. right. exists b. split; [reflexivity|]. apply (proj2 (gp_succ_in _ G1 n2 b)), HG1.
+          split; assumption. }
         left. split; [exact Hab|]. intros [H|[H|[]]]; congruence.
       + intros [[Hab _]|[(c & Hc & Hin)|(c & Hc & Hin)]]; [exact Hab| |].
-        * injection Hc as <- <-. apply gp_succ_in in Hin. exact Hin.
-        * injection Hc as <- <-. apply gp_succ_in, HG1 in Hin. tauto.
+        * injection Hc as <- <-. exact (proj1 (gp_succ_in _ G n1 c) Hin).
+        * injection Hc as <- <-. apply (proj1 (gp_succ_in _ G1 n2 c)), HG1 in Hin. tauto.
     - (* the set is the model's *)
       intros z. rewrite Hconf. unfold py_set_empty.
       rewrite (@id_collect_in A eqb eqb_spec _ _ HC z). split.
       + intros [[]|(p & s & Hp & Hs & Hz)]. exists s. split; [|exact Hz].
         apply in_map_iff. exists p. split; [exact Hs|].
-        apply (@parents_in A eqb eqb_spec), Hg2m, gp_pred_in. exact Hp.
+        apply (@parents_in A eqb eqb_spec), Hg2m. exact (proj1 (gp_pred_in _ G2 n1 p) Hp).
       + intros (s & Hs & Hz). right. apply in_map_iff in Hs. destruct Hs as (p & Hs & Hp).
         exists p, s. split; [|split; assumption].
-        apply gp_pred_in, Hg2m, (@parents_in A eqb eqb_spec). exact Hp.
+        apply (proj2 (gp_pred_in _ G2 n1 p)), Hg2m, (@parents_in A eqb eqb_spec). exact Hp.
   Qed.
 
   (** * 6. [_verify_identify_inputs] and [identify_confounders] *)
@@ -491,9 +547,9 @@ Section GenProofs.
   Variables py_None py_empty_str : A.
 
   Local Notation gen_verify := (gen__verify_identify_inputs eqb py_None py_empty_str).
-  Local Notation gen_conf := (gen_identify_confounders eqb py_None py_empty_str).
-  Local Notation gen_med := (gen_identify_mediators eqb py_None py_empty_str).
-  Local Notation gen_inst := (gen_identify_instruments eqb py_None py_empty_str).
+  Local Notation gen_conf := (gen_identify_confounders eqb py_None py_empty_str ord).
+  Local Notation gen_med := (gen_identify_mediators eqb py_None py_empty_str ord).
+  Local Notation gen_inst := (gen_identify_instruments eqb py_None py_empty_str ord).
 
   (** On a DAG and two distinct nodes of it the checks pass. *)
   Lemma gen_verify_ok (g : digraph A) x y :
@@ -544,9 +600,9 @@ Section GenProofs.
     destruct (gp_conf_search_geq fuel y x Hwf Hg1 E2') as (c2' & E2'' & Hc2).
     destruct (@gen_helper_spec fuel G1 y x c2' (geq_wf Hg1 Hwf) E2'') as (G2 & R2 & Hgen2 & Hg2 & HR2).
     rewrite Hgen2. cbn [py_bind]. unfold py_top, py_list.
-    exists (py_inter eqb R1 R2), (inter eqb c1 c2).
+    eexists. exists (inter eqb c1 c2).
     split; [reflexivity|]. split; [reflexivity|].
-    intros z. rewrite gp_inter_in, (@inter_in A eqb eqb_spec), HR1, HR2, Hc2. tauto.
+    intros z. rewrite gp_iter_set_in, gp_inter_in, (@inter_in A eqb eqb_spec), HR1, HR2, Hc2. tauto.
   Qed.
 
   (** * 7. Loops that filter a set in place while iterating over a snapshot of it *)
@@ -601,25 +657,28 @@ Section GenProofs.
              intros [Hys Hc]. apply Hn. split; [right; exact Hys|exact Hc].
   Qed.
 
-  (** The snapshot is a copy of the set itself. *)
-  Lemma gp_filter_copy (R : Type) (cond : A -> bool) (body : A -> list A -> pyctl (list A) R) s :
+  (** The snapshot is a copy of the set itself, iterated in the order chosen by the oracle. *)
+  Lemma gp_filter_copy (R : Type) (cond : A -> bool) (body : A -> list A -> pyctl (list A) R) k s :
     (forall c s', In c s -> In c s' ->
        body c s' = if cond c then py_bind py_in (py_set_remove eqb s' c) (fun s'' => Cont s'')
                    else Cont s') ->
     NoDup s ->
-    exists s', py_loop (py_copy s) s body = Cont s' /\ NoDup s' /\
+    exists s', py_loop (py_iter_set ord k (py_copy s)) s body = Cont s' /\ NoDup s' /\
                forall y, In y s' <-> In y s /\ cond y = false.
   Proof.
     intros Hb Hnd. unfold py_copy.
-    destruct (@gp_filter_loop R cond body s s Hb Hnd (fun y Hy => Hy)) as (s' & Hl & Hnd' & Hin).
-    exists s'. split; [exact Hl|]. split; [exact (Hnd' Hnd)|].
-    intros y. rewrite Hin. destruct (cond y); intuition congruence.
+    destruct (@gp_filter_loop R cond body (py_iter_set ord k s) s) as (s' & Hl & Hnd' & Hin).
+    - intros c s' Hc Hcs'. apply Hb; [apply (gp_iter_set_in k s c); exact Hc|exact Hcs'].
+    - apply gp_iter_set_nodup. exact Hnd.
+    - intros y Hy. apply (gp_iter_set_in k s y). exact Hy.
+    - exists s'. split; [exact Hl|]. split; [exact (Hnd' Hnd)|].
+      intros y. rewrite Hin, gp_iter_set_in. destruct (cond y); intuition congruence.
   Qed.
 
   (** [for z in zs: for c in s.copy(): if cond(z, c): s.remove(c)] *)
-  Lemma gp_filter_outer (R : Type) (cond : A -> A -> bool) (body : A -> list A -> pyctl (list A) R) :
+  Lemma gp_filter_outer (R : Type) (cond : A -> A -> bool) (body : A -> list A -> pyctl (list A) R) k :
     (forall z s, body z s =
-       py_for py_in (py_copy s) s
+       py_for py_in (py_iter_set ord k (py_copy s)) s
          (fun c s' => if cond z c then py_bind py_in (py_set_remove eqb s' c) (fun s'' => Cont s'')
                       else Cont s')
          (fun s' => Cont s')) ->
@@ -631,7 +690,7 @@ Section GenProofs.
     - exists s. simpl. split; [reflexivity|]. split; [exact Hnd|].
       intros y. split; [intros H; split; [exact H|intros z []]|tauto].
     - simpl. rewrite Hb, py_for_loop.
-      destruct (@gp_filter_copy R (cond z) _ s (fun c s' _ _ => eq_refl) Hnd) as (s1 & Hl & Hnd1 & Hin1).
+      destruct (@gp_filter_copy R (cond z) _ k s (fun c s' _ _ => eq_refl) Hnd) as (s1 & Hl & Hnd1 & Hin1).
       rewrite Hl.
       destruct (IH s1 Hnd1) as (s' & Hl' & Hnd' & Hin').
       exists s'. split; [exact Hl'|]. split; [exact Hnd'|].
@@ -639,6 +698,27 @@ Section GenProofs.
       + intros [[Hy Hz] Hall]. split; [exact Hy|]. intros z' [<-|Hz']; [exact Hz|apply Hall; exact Hz'].
       + intros [Hy Hall]. split; [split; [exact Hy|apply Hall; left; reflexivity]|].
         intros z' Hz'. apply Hall. right. exact Hz'.
+  Qed.
+
+  Lemma gp_forallb_ord (X : Type) (f : X -> bool) k (l : list X) :
+    forallb f (@ord X k l) = forallb f l.
+  Proof.
+    destruct (forallb f l) eqn:E.
+    - apply forallb_forall. intros x Hx. apply gp_ord_in in Hx.
+      exact (proj1 (forallb_forall f l) E x Hx).
+    - destruct (forallb f (@ord X k l)) eqn:E'; [|reflexivity]. exfalso.
+      assert (Hall : forallb f l = true).
+      { apply forallb_forall. intros x Hx. apply (proj1 (forallb_forall f _) E').
+        apply gp_ord_in. exact Hx. }
+      congruence.
+  Qed.
+
+  Lemma gp_forall_map (X Y : Type) (f : X -> Y) (P : Y -> Prop) (l : list X) :
+    (forall y, In y (map f l) -> P y) <-> (forall x, In x l -> P (f x)).
+  Proof.
+    split.
+    - intros H x Hx. apply H. apply in_map. exact Hx.
+    - intros H y Hy. apply in_map_iff in Hy. destruct Hy as (x & <- & Hx). apply H. exact Hx.
   Qed.
 
   (** * 8. [identify_mediators] *)
@@ -702,23 +782,34 @@ Section GenProofs.
     destruct (gen_confounders_equiv Hwf Hac Hs Hd Hsd Hnone Hfuel) as (RC & C & HgenC & HC & HRC).
     rewrite HgenC, HC. cbn [py_bind].
     unfold py_cg_get_all_causal_paths. rewrite Eps. cbn [py_bind].
+    match goal with |- context [py_enumerate ?l] => set (ps' := l) end.
+    assert (Hps' : forall p, In p ps' <-> In p ps) by (intros p; apply gp_ord_in).
+    assert (Hlen' : length ps' = length ps) by apply gp_ord_length.
     rewrite py_for_loop. unfold py_enumerate.
-    rewrite (proj1 (@gp_med_paths_loop _ mx _ (fun _ _ _ => eq_refl) ps 0 py_list_empty)); [|simpl; lia].
+    rewrite (proj1 (@gp_med_paths_loop _ mx _ (fun _ _ _ => eq_refl) ps' 0 py_list_empty)); [|simpl; lia].
     unfold py_list_empty. cbn [app].
-    destruct (filter (fun p => Nat.ltb 2 (length p)) ps) as [|p0 rest] eqn:Elong.
-    { exists [], []. split; [reflexivity|]. split; [reflexivity|]. intros z. tauto. }
+    assert (Hlong : forall p, In p (filter (fun p => Nat.ltb 2 (length p)) ps') <->
+                              In p (filter (fun p => Nat.ltb 2 (length p)) ps)).
+    { intros p. rewrite !filter_In, Hps'. tauto. }
+    destruct (filter (fun p => Nat.ltb 2 (length p)) ps') as [|p0 rest] eqn:Elong.
+    { destruct (filter (fun p => Nat.ltb 2 (length p)) ps) as [|q0 qrest].
+      - exists [], []. split; [reflexivity|]. split; [reflexivity|]. intros z. tauto.
+      - exfalso. apply (proj2 (Hlong q0)). left. reflexivity. }
+    destruct (filter (fun p => Nat.ltb 2 (length p)) ps) as [|q0 qrest] eqn:Elongm.
+    { exfalso. apply (proj1 (Hlong p0)). left. reflexivity. }
     cbn [map length Nat.eqb]. cbn [py_set_intersection_star py_bind].
     unfold py_cg_copy.
     (* the pruned graph *)
     rewrite py_for_loop.
-    rewrite (@gp_rm_loop_cg s _ _ (fun _ _ => eq_refl) (py_cg_get_children eqb g s) g
-               (gp_succ_nodup g s) (fun c Hc => proj1 (gp_succ_in g s c) Hc)).
-    set (Gp := del_list g s (py_cg_get_children eqb g s)).
+    rewrite (@gp_rm_loop_cg s _ _ (fun _ _ => eq_refl) _ g
+               (gp_children_nodup _ g s) (fun c Hc => proj1 (gp_children_in _ g s c) Hc)).
+    match goal with |- context [del_list g s ?cs] => set (Gp := del_list g s cs) end.
     set (pg := del_arcs_from eqb g [s]).
     assert (Hgp : geq Gp pg).
     { split; [unfold Gp; rewrite del_list_verts; reflexivity|].
-      intros a b. unfold Gp, pg. unfold py_cg_get_children.
-      rewrite del_list_children, (@del_arcs_arc A eqb eqb_spec). simpl. intuition congruence. }
+      intros a b. unfold Gp, pg.
+      rewrite (@del_list_children g s _ a b (fun c => gp_children_in _ g s c)),
+        (@del_arcs_arc A eqb eqb_spec). simpl. intuition congruence. }
     assert (Hwfpg : wf pg) by (apply (@del_arcs_wf A eqb eqb_spec); exact Hwf).
     assert (Hwfgp : wf Gp) by exact (geq_wf (geq_sym Hgp) Hwfpg).
     (* the candidate set *)
@@ -727,29 +818,32 @@ Section GenProofs.
     { unfold cand. apply gp_fold_inter_nodup. apply diff_nodup. apply gp_set_of_nodup. }
     rewrite py_for_loop.
     match goal with |- context [py_loop RC cand ?b] =>
-      destruct (@gp_filter_outer _ (fun z c => memb eqb c (py_cg_get_descendants eqb Gp z)) b
+      destruct (@gp_filter_outer _ (fun z c => memb eqb c (py_cg_get_descendants eqb Gp z)) b _
                   (fun _ _ => eq_refl) RC cand Hcnd) as (s' & Hl & _ & Hin)
     end.
     rewrite Hl. unfold py_top, py_list.
     eexists. eexists. split; [reflexivity|]. split; [reflexivity|].
-    intros m. rewrite Hin, filter_In. unfold cand.
+    intros m. rewrite gp_iter_set_in, Hin, filter_In. unfold cand.
     rewrite !gp_fold_inter_all.
+    assert (Hstrip : forall p, In m (py_diff eqb (py_set_of eqb p) (py_set_of eqb [s; d])) <->
+                               In m (filter (fun v => negb (eqb v s) && negb (eqb v d)) p)).
+    { intros p. rewrite gp_diff_in, !gp_set_of_in, filter_In, andb_true_iff, !negb_true_iff.
+      simpl. destruct (eqb_spec m s), (eqb_spec m d); intuition congruence. }
     assert (H1 : (forall q, In q (py_diff eqb (py_set_of eqb p0) (py_set_of eqb [s; d])
                               :: map (fun v_path => py_diff eqb v_path (py_set_of eqb [s; d]))
                                    (map (py_set_of eqb) rest)) -> In m q) <->
-                 (forall q, In q (filter (fun v => negb (eqb v s) && negb (eqb v d)) p0
-                              :: map (filter (fun v => negb (eqb v s) && negb (eqb v d))) rest) -> In m q)).
-    { assert (Hstrip : forall p, In m (py_diff eqb (py_set_of eqb p) (py_set_of eqb [s; d])) <->
-                                 In m (filter (fun v => negb (eqb v s) && negb (eqb v d)) p)).
-      { intros p. rewrite gp_diff_in, !gp_set_of_in, filter_In, andb_true_iff, !negb_true_iff.
-        simpl. destruct (eqb_spec m s), (eqb_spec m d); intuition congruence. }
-      split.
-      - intros H q [<-|Hq]; [apply Hstrip, H; left; reflexivity|].
-        apply in_map_iff in Hq. destruct Hq as (p & <- & Hp). apply Hstrip, H. right.
-        rewrite map_map. apply in_map_iff. exists p. split; [reflexivity|exact Hp].
-      - intros H q [<-|Hq]; [apply Hstrip, H; left; reflexivity|].
-        rewrite map_map in Hq. apply in_map_iff in Hq. destruct Hq as (p & <- & Hp).
-        apply Hstrip, H. right. apply in_map. exact Hp. }
+                 (forall q, In q (filter (fun v => negb (eqb v s) && negb (eqb v d)) q0
+                              :: map (filter (fun v => negb (eqb v s) && negb (eqb v d))) qrest) -> In m q)).
+    { rewrite map_map.
+      change (py_diff eqb (py_set_of eqb p0) (py_set_of eqb [s; d])
+                :: map (fun x => py_diff eqb (py_set_of eqb x) (py_set_of eqb [s; d])) rest)
+        with (map (fun x => py_diff eqb (py_set_of eqb x) (py_set_of eqb [s; d])) (p0 :: rest)).
+      change (filter (fun v => negb (eqb v s) && negb (eqb v d)) q0
+                :: map (filter (fun w => negb (eqb w s) && negb (eqb w d))) qrest)
+        with (map (filter (fun u => negb (eqb u s) && negb (eqb u d))) (q0 :: qrest)).
+      rewrite !gp_forall_map. split.
+      - intros H p Hp. apply Hstrip, H, Hlong. exact Hp.
+      - intros H p Hp. apply Hstrip, H, Hlong. exact Hp. }
     rewrite H1.
     assert (H2 : (forall z, In z RC -> memb eqb m (py_cg_get_descendants eqb Gp z) = false) <->
                  negb (existsb (fun z => memb eqb m (desc eqb pg z)) C) = true).
@@ -774,8 +868,10 @@ Section GenProofs.
     destruct (gen_confounders_equiv Hwf Hac Hs Hd Hsd Hnone Hfuel) as (RC & C & HgenC & HC & HRC).
     rewrite HgenC. cbn [py_bind].
     unfold py_cg_get_all_causal_paths. rewrite Eps. cbn [py_bind].
+    match goal with |- context [py_enumerate ?l] => set (ps' := l) end.
+    assert (Hlen' : length ps' = length ps) by apply gp_ord_length.
     rewrite py_for_loop. unfold py_enumerate.
-    rewrite (proj2 (@gp_med_paths_loop _ mx _ (fun _ _ _ => eq_refl) ps 0 py_list_empty)); [|lia|simpl; lia].
+    rewrite (proj2 (@gp_med_paths_loop _ mx _ (fun _ _ _ => eq_refl) ps' 0 py_list_empty)); [|lia|simpl; lia].
     reflexivity.
   Qed.
 
@@ -852,7 +948,7 @@ Section GenProofs.
     match goal with |- context [py_loop RC cand ?b] =>
       destruct (@gp_filter_outer _
                   (fun z c => memb eqb c (py_cg_get_descendants eqb g z)
-                              || memb eqb c (py_cg_get_ancestors eqb g z)) b
+                              || memb eqb c (py_cg_get_ancestors eqb g z)) b _
                   (fun _ _ => eq_refl) RC cand Hcnd) as (s1 & Hl1 & Hnd1 & Hin1)
     end.
     rewrite Hl1. clear Hl1.
@@ -866,32 +962,35 @@ Section GenProofs.
       destruct Hy as [Hy _]. apply (@diff_in A eqb eqb_spec) in Hy. tauto. }
     (* phase 2 *)
     rewrite py_for_loop.
-    match goal with |- context [py_loop (py_copy s1) s1 ?b] =>
+    match goal with |- context [py_loop (py_iter_set ord ?k (py_copy s1)) s1 ?b] =>
       destruct (@gp_filter_copy _
                   (fun c => match id_all_paths eqb g c d with
                             | Some ps => negb (forallb (fun p => memb eqb s p) ps)
                             | None => false
-                            end) b s1) as (s2 & Hl2 & Hnd2 & Hin2)
+                            end) b k s1) as (s2 & Hl2 & Hnd2 & Hin2)
     end.
     { intros c st Hc Hcst.
       destruct (Hanc_v c (Hs1_anc c Hc)) as [Hcv Hcd].
       destruct (@id_all_paths_some A eqb eqb_spec g c d Hwf Hcv) as [ps Eps].
       unfold py_cg_get_all_causal_paths. rewrite Eps. cbn [py_bind]. rewrite py_for_loop.
       unfold py_enumerate.
-      rewrite (proj1 (@gp_inst_paths_loop _ mx c s _ (fun _ _ _ => eq_refl) ps 0 st Hcst)).
-      - destruct (forallb (fun p => memb eqb s p) ps); simpl; [reflexivity|].
+      match goal with |- context [combine (seq 0 (length ?l)) ?l] => set (ps' := l) end.
+      rewrite (proj1 (@gp_inst_paths_loop _ mx c s _ (fun _ _ _ => eq_refl) ps' 0 st Hcst)).
+      - unfold ps'. rewrite gp_forallb_ord.
+        destruct (forallb (fun p => memb eqb s p) ps); simpl; [reflexivity|].
         unfold py_set_remove. rewrite (proj2 (gp_memb_in c st) Hcst). reflexivity.
-      - simpl. apply (Hguard c ps HC); [apply Hs1; exact Hc|exact Eps]. }
+      - simpl. unfold ps'. rewrite gp_ord_length.
+        apply (Hguard c ps HC); [apply Hs1; exact Hc|exact Eps]. }
     { exact Hnd1. }
     rewrite Hl2. clear Hl2.
     (* phase 3 *)
     rewrite py_for_loop.
-    match goal with |- context [py_loop (py_copy s2) s2 ?b] =>
+    match goal with |- context [py_loop (py_iter_set ord ?k (py_copy s2)) s2 ?b] =>
       destruct (@gp_filter_copy _
                   (fun c => match gen_conf fuel g c d with
                             | Ret t => Nat.ltb 0 (length t)
                             | _ => false
-                            end) b s2) as (s3 & Hl3 & Hnd3 & Hin3)
+                            end) b k s2) as (s3 & Hl3 & Hnd3 & Hin3)
     end.
     { intros c st Hc Hcst. apply Hin2 in Hc. destruct Hc as [Hc _].
       destruct (Hanc_v c (Hs1_anc c Hc)) as [Hcv Hcd].
@@ -902,8 +1001,8 @@ Section GenProofs.
     (* the model *)
     match type of HI with match ?X with _ => _ end = _ =>
       destruct X as [cand2|] eqn:E2; [|discriminate] end.
-    exists s3, I. split; [reflexivity|]. split; [exact HI|].
-    intros y. rewrite Hin3, Hin2, Hs1.
+    eexists. exists I. split; [reflexivity|]. split; [exact HI|].
+    intros y. rewrite gp_iter_set_in, Hin3, Hin2, Hs1.
     rewrite (id_filter_opt_in _ _ HI y), (id_filter_opt_in _ _ E2 y).
     split.
     - intros [[Hy H2] H3]. assert (Hy1 : In y s1) by (apply Hs1; exact Hy).
@@ -931,10 +1030,10 @@ Section GenProofs.
       A candidate that reaches the enumeration of causal paths never has a causal path to the
       destination that avoids the source (InstrumentsGen.inst_path_filter_redundant), so the
       [break] is never taken and the enumeration runs until the index exceeds [max_num_paths]. *)
-  Lemma gp_inst_phase2_raises (R : Type) (g : digraph A) (s d : A) (mx : nat)
+  Lemma gp_inst_phase2_raises (R : Type) (g : digraph A) (s d : A) (mx k : nat)
         (body : A -> list A -> pyctl (list A) R) :
     (forall c st, body c st =
-       py_bind py_in (py_cg_get_all_causal_paths eqb g c d)
+       py_bind py_in (py_cg_get_all_causal_paths eqb ord k g c d)
          (fun ps => py_for py_in (py_enumerate ps) st
             (fun '(i, p) st' =>
                if Nat.ltb mx i then py_in (Exc PyValueError)
@@ -954,16 +1053,20 @@ Section GenProofs.
       destruct (Hall c (or_introl eq_refl)) as (Hcst & ps & Eps & Hthru).
       unfold py_cg_get_all_causal_paths. rewrite Eps. cbn [py_bind]. rewrite py_for_loop.
       unfold py_enumerate.
+      match goal with |- context [combine (seq 0 (length ?l)) ?l] => set (ps' := l) end.
+      assert (Hlen' : length ps' = length ps) by apply gp_ord_length.
+      assert (Hthru' : forallb (fun p => memb eqb s p) ps' = true)
+        by (unfold ps'; rewrite gp_forallb_ord; exact Hthru).
       destruct (Nat.leb (length ps) (mx + 1)) eqn:Ele.
       + apply Nat.leb_le in Ele.
-        rewrite (proj1 (@gp_inst_paths_loop _ mx c s _ (fun _ _ _ => eq_refl) ps 0 st Hcst)); [|simpl; lia].
-        rewrite Hthru. apply IH.
+        rewrite (proj1 (@gp_inst_paths_loop _ mx c s _ (fun _ _ _ => eq_refl) ps' 0 st Hcst)); [|simpl; lia].
+        rewrite Hthru'. apply IH.
         * intros c' Hc'. apply Hall. right. exact Hc'.
         * destruct Hc0 as [<-|Hc0]; [|exists c0, ps0; split; [exact Hc0|split; assumption]].
           rewrite Eps in Eps0. injection Eps0 as <-. lia.
       + apply Nat.leb_gt in Ele.
-        rewrite (proj2 (@gp_inst_paths_loop _ mx c s _ (fun _ _ _ => eq_refl) ps 0 st Hcst));
-          [reflexivity|exact Hthru|lia|simpl; lia].
+        rewrite (proj2 (@gp_inst_paths_loop _ mx c s _ (fun _ _ _ => eq_refl) ps' 0 st Hcst));
+          [reflexivity|exact Hthru'|lia|simpl; lia].
   Qed.
 
   Theorem gen_instruments_raises (g : digraph A) s d fuel mx C c ps :
@@ -995,7 +1098,7 @@ Section GenProofs.
     match goal with |- context [py_loop RC cand ?b] =>
       destruct (@gp_filter_outer _
                   (fun z c => memb eqb c (py_cg_get_descendants eqb g z)
-                              || memb eqb c (py_cg_get_ancestors eqb g z)) b
+                              || memb eqb c (py_cg_get_ancestors eqb g z)) b _
                   (fun _ _ => eq_refl) RC cand Hcnd) as (s1 & Hl1 & Hnd1 & Hin1)
     end.
     rewrite Hl1. clear Hl1.
@@ -1005,8 +1108,11 @@ Section GenProofs.
       - intros [Hy Hall]. split; [exact Hy|]. intros z Hz. apply Hall, HRC. exact Hz.
       - intros [Hy Hall]. split; [exact Hy|]. intros z Hz. apply Hall, HRC. exact Hz. }
     rewrite py_for_loop. unfold py_copy.
-    rewrite (@gp_inst_phase2_raises _ g s d mx _ (fun _ _ => eq_refl) s1 s1); [reflexivity| |].
-    - intros y Hy. split; [exact Hy|]. apply Hs1 in Hy. unfold gp_cand1 in Hy.
+    match goal with |- context [py_loop (py_iter_set ord ?k s1) s1 _] =>
+      rewrite (@gp_inst_phase2_raises _ g s d mx _ _ (fun _ _ => eq_refl) (py_iter_set ord k s1) s1);
+        [reflexivity| |]
+    end.
+    - intros y Hy. apply gp_iter_set_in in Hy. split; [exact Hy|]. apply Hs1 in Hy. unfold gp_cand1 in Hy.
       apply filter_In in Hy. destruct Hy as [Hy Hz]. apply (@diff_in A eqb eqb_spec) in Hy.
       destruct Hy as [Hya HyC]. destruct (Hanc_v y Hya) as [Hyv Hyd].
       destruct (@id_all_paths_some A eqb eqb_spec g y d Hwf Hyv) as [psy Epsy].
@@ -1017,7 +1123,7 @@ Section GenProofs.
       + intros z Hz' Hpath. apply (@id_negb_existsb A _ C) with (z := z) in Hz; [|exact Hz'].
         apply orb_false_iff in Hz. destruct Hz as [_ Hz]. apply gp_memb_false in Hz. apply Hz.
         apply (@anc_spec A eqb eqb_spec g z y Hwf). exact Hpath.
-    - exists c, ps. split; [apply Hs1; exact Hc|]. split; assumption.
+    - exists c, ps. split; [apply gp_iter_set_in, Hs1; exact Hc|]. split; assumption.
   Qed.
 End GenProofs.
 
@@ -1026,9 +1132,11 @@ Section GenMarkov.
   Variable A : Type.
   Variable eqb : A -> A -> bool.
   Hypothesis eqb_spec : forall x y, reflect (x = y) (eqb x y).
+  Variable ord : pyorder.
+  Hypothesis ord_ok : pyorder_ok ord.
   Variables py_None py_empty_str : A.
 
-  Local Notation gen_mb := (gen_identify_markov_boundary eqb py_None py_empty_str).
+  Local Notation gen_mb := (gen_identify_markov_boundary eqb py_None py_empty_str ord).
 
   (** With the second node omitted, [_verify_identify_inputs] compares the node with [''] (and
       with [None]). *)
@@ -1052,24 +1160,24 @@ Section GenMarkov.
     rewrite (gen_verify_none_ok Hwf Hac Hx Hn He). cbn [py_bind]. unfold py_top, py_list.
     eexists. split; [reflexivity|]. intros z.
     rewrite (@mb_spec A eqb eqb_spec).
+    rewrite (@gp_iter_set_in ord ord_ok).
     rewrite !(@gp_union_in A eqb eqb_spec), !(@gp_set_of_in A eqb eqb_spec).
-    unfold py_cg_get_parents, py_cg_get_children.
-    rewrite !(@union_in A eqb eqb_spec), (@parents_in A eqb eqb_spec), (@children_in A eqb eqb_spec).
-    rewrite in_flat_map. simpl. split.
-    - intros [[[H|[]]|[H|[]]]|(c & Hc & Hz)]; [left; exact H|right; left; exact H|].
-      right. right. rewrite (@gp_set_of_in A eqb eqb_spec), (@union_in A eqb eqb_spec) in Hc.
-      destruct Hc as [Hc|[]]. rewrite (@children_in A eqb eqb_spec) in Hc.
+    rewrite (@gp_parents_in A eqb eqb_spec ord ord_ok), (@gp_children_in A eqb eqb_spec ord ord_ok).
+    rewrite in_flat_map. split.
+    - intros [[H|H]|(c & Hc & Hz)]; [left; exact H|right; left; exact H|].
+      right. right.
+      rewrite (@gp_iter_set_in ord ord_ok), (@gp_set_of_in A eqb eqb_spec),
+        (@gp_children_in A eqb eqb_spec ord ord_ok) in Hc.
       rewrite in_flat_map in Hz. destruct Hz as (p & Hp & Hz).
-      rewrite (@union_in A eqb eqb_spec) in Hp. destruct Hp as [Hp|[]].
-      rewrite (@parents_in A eqb eqb_spec) in Hp.
+      rewrite (@gp_parents_in A eqb eqb_spec ord ord_ok) in Hp.
       destruct (eqb_spec p x) as [E|E]; simpl in Hz; [destruct Hz|].
       destruct Hz as [<-|[]]. exists c. split; [exact Hc|]. split; [exact Hp|exact E].
-    - intros [H|[H|(c & Hc & Hz & Hne)]]; [left; left; left; exact H|left; right; left; exact H|].
+    - intros [H|[H|(c & Hc & Hz & Hne)]]; [left; left; exact H|left; right; exact H|].
       right. exists c. split.
-      + rewrite (@gp_set_of_in A eqb eqb_spec), (@union_in A eqb eqb_spec). left.
-        rewrite (@children_in A eqb eqb_spec). exact Hc.
+      + rewrite (@gp_iter_set_in ord ord_ok), (@gp_set_of_in A eqb eqb_spec),
+          (@gp_children_in A eqb eqb_spec ord ord_ok). exact Hc.
       + rewrite in_flat_map. exists z. split.
-        * rewrite (@union_in A eqb eqb_spec). left. rewrite (@parents_in A eqb eqb_spec). exact Hz.
+        * rewrite (@gp_parents_in A eqb eqb_spec ord ord_ok). exact Hz.
         * destruct (eqb_spec z x) as [E|E]; [contradiction|]. left. reflexivity.
   Qed.
 
@@ -1093,6 +1201,8 @@ Section GenColliders.
   Variable A : Type.
   Variable eqb : A -> A -> bool.
   Hypothesis eqb_spec : forall x y, reflect (x = y) (eqb x y).
+  Variable ord : pyorder.
+  Hypothesis ord_ok : pyorder_ok ord.
 
   (** the list of pairs built from [get_bidirected_edges()] *)
   Lemma gc_pair_memb_bi (mg : list (medge A)) a b :
@@ -1141,8 +1251,24 @@ Section GenColliders.
       [reflexivity|exact IH].
   Qed.
 
+  (** the test on the potential parents only depends on them as a SET *)
+  Lemma gc_unshieldedb_seteq (mg : list (medge A)) l1 l2 :
+    NoDup l1 -> NoDup l2 -> (forall x, In x l1 <-> In x l2) ->
+    unshieldedb eqb mg l1 = unshieldedb eqb mg l2.
+  Proof.
+    intros H1 H2 Heq.
+    destruct (unshieldedb eqb mg l2) eqn:E2.
+    - apply (@unshieldedb_spec A eqb eqb_spec mg l1 H1).
+      intros p q Hp Hq. apply (proj1 (@unshieldedb_spec A eqb eqb_spec mg l2 H2) E2); apply Heq; assumption.
+    - destruct (unshieldedb eqb mg l1) eqn:E1; [|reflexivity]. exfalso.
+      assert (E : unshieldedb eqb mg l2 = true).
+      { apply (@unshieldedb_spec A eqb eqb_spec mg l2 H2).
+        intros p q Hp Hq. apply (proj1 (@unshieldedb_spec A eqb eqb_spec mg l1 H1) E1); apply Heq; assumption. }
+      congruence.
+  Qed.
+
   Theorem gen_colliders_equiv (g : mgraph A) (u : bool) :
-    exists R, gen_identify_colliders eqb g u = Ret R /\
+    exists R, gen_identify_colliders eqb ord g u = Ret R /\
               forall z, In z R <-> In z (identify_colliders eqb (medges g) (mnodes g) u).
   Proof.
     unfold gen_identify_colliders.
@@ -1164,20 +1290,38 @@ Section GenColliders.
         - split.
           + intros [H|[H1 H2]]; auto.
           + intros [H|[[<-|H1] H2]]; [auto|congruence|auto]. }
-      rewrite Hfold, filter_In. simpl. tauto.
+      rewrite (@gp_iter_set_in ord ord_ok), Hfold, filter_In. simpl. tauto.
     - intros n cs. cbv beta zeta.
       unfold py_mcg_get_neighbors, py_mcg_get_bidirected_edges, py_mcg_edge_exists, py_mcg_get_edge.
+      match goal with |- context [py_for py_in ?l py_set_empty _ _] => set (nbrs := l) end.
+      assert (Hnb_nd : NoDup nbrs).
+      { apply (@gp_ord_nodup ord ord_ok). apply (@mk_neighbors_nodup A eqb eqb_spec). }
       rewrite py_for_loop.
       rewrite (@py_loop_fold _ _ _
                  (fun nb pp => if is_potential_parent eqb (medges g) n nb then py_set_add eqb pp nb else pp)).
-      + rewrite (@gc_fold_add _ _ _ (@mk_neighbors_nodup A eqb eqb_spec (medges g) n)); [|intros x _ []].
-        unfold py_set_empty. cbn [app]. fold (potential_parents eqb (medges g) n).
-        unfold test. destruct (2 <=? length (potential_parents eqb (medges g) n)); [|reflexivity].
+      + rewrite (@gc_fold_add _ _ _ Hnb_nd); [|intros x _ []].
+        unfold py_set_empty. cbn [app].
+        set (pp := filter (is_potential_parent eqb (medges g) n) nbrs).
+        assert (Hpp_nd : NoDup pp) by (apply NoDup_filter; exact Hnb_nd).
+        assert (Hpp_in : forall x, In x pp <-> In x (potential_parents eqb (medges g) n)).
+        { intros x. unfold pp, potential_parents, nbrs. rewrite !filter_In, (@gp_ord_in ord ord_ok). tauto. }
+        assert (Hmodel_nd : NoDup (potential_parents eqb (medges g) n))
+          by apply (@potential_parents_nodup A eqb eqb_spec).
+        assert (Hlen : length pp = length (potential_parents eqb (medges g) n)).
+        { apply Permutation_length. apply NoDup_Permutation; assumption. }
+        unfold test. rewrite Hlen.
+        destruct (2 <=? length (potential_parents eqb (medges g) n)); [|reflexivity].
         destruct u; simpl.
         * rewrite py_for_loop. unfold py_combinations2.
           rewrite (@gc_unshielded_loop _ (medges g) _ (fun _ _ _ => eq_refl)).
-          fold (unshieldedb eqb (medges g) (potential_parents eqb (medges g) n)).
-          destruct (unshieldedb eqb (medges g) (potential_parents eqb (medges g) n)); reflexivity.
+          match goal with |- context [pairs2 ?l] =>
+            fold (unshieldedb eqb (medges g) l);
+            rewrite (@gc_unshieldedb_seteq (medges g) l (potential_parents eqb (medges g) n))
+          end.
+          -- destruct (unshieldedb eqb (medges g) (potential_parents eqb (medges g) n)); reflexivity.
+          -- apply (@gp_iter_set_nodup ord ord_ok). exact Hpp_nd.
+          -- exact Hmodel_nd.
+          -- intros x. rewrite (@gp_iter_set_in ord ord_ok). apply Hpp_in.
         * reflexivity.
       + intros nb pp. unfold is_potential_parent, mg_edge_exists.
         rewrite !gc_pair_memb_bi.
@@ -1193,38 +1337,50 @@ End GenColliders.
 
 Definition gen_seteq (l1 l2 : list nat) : Prop := forall z, In z l1 <-> In z l2.
 
+(** The two concrete iteration orders of PyRt.v are permutations. *)
+Lemma pyorder_id_ok : pyorder_ok pyorder_id.
+Proof. intros X k l. apply Permutation_refl. Qed.
+
+Lemma pyorder_alt_ok : pyorder_ok pyorder_alt.
+Proof.
+  intros X k l. unfold pyorder_alt. destruct (Nat.odd k); [|apply Permutation_refl].
+  apply Permutation_sym, Permutation_rev.
+Qed.
+
 (** The nested helper: the graph is given back with the same nodes and edges, and the set is the
     one computed by [conf_search]; the fuel [|V| + 1] (or more) suffices on a DAG. *)
 Definition gen_helper_statement : Prop :=
-  forall (g : digraph nat) n1 n2 fuel,
-    wf g -> acyclic g -> length (verts g) + 1 <= fuel ->
+  forall (ord : pyorder) (g : digraph nat) n1 n2 fuel,
+    pyorder_ok ord -> wf g -> acyclic g -> length (verts g) + 1 <= fuel ->
     exists g' R C,
-      gen__identify_confounders_no_checks_no_descendant_pruning_networkx Nat.eqb fuel g n1 n2
+      gen__identify_confounders_no_checks_no_descendant_pruning_networkx Nat.eqb ord fuel g n1 n2
       = Ret (g', R) /\
       verts g' = verts g /\ (forall a b, arc g' a b <-> arc g a b) /\
       conf_search Nat.eqb (length (verts g) + 1) g n1 n2 = Some C /\ gen_seteq R C.
 
 Theorem gen_helper_equiv : gen_helper_statement.
 Proof.
-  intros g n1 n2 fuel Hwf Hac Hfuel.
+  intros ord g n1 n2 fuel Hord Hwf Hac Hfuel.
   destruct (conf_search Nat.eqb (length (verts g) + 1) g n1 n2) as [C|] eqn:E;
     [|exfalso; exact (@conf_search_fuel nat Nat.eqb Nat.eqb_spec g n1 n2 Hwf Hac E)].
   pose proof (conf_search_mono Nat.eqb _ _ _ Hfuel E) as E'.
-  destruct (@gen_helper_spec nat Nat.eqb Nat.eqb_spec fuel g n1 n2 C Hwf E') as (g' & R & Hgen & Hg & HR).
+  destruct (@gen_helper_spec nat Nat.eqb Nat.eqb_spec ord Hord fuel g n1 n2 C Hwf E') as (g' & R & Hgen & Hg & HR).
   exists g', R, C. split; [exact Hgen|]. destruct Hg as [Hv Ha].
   split; [symmetry; exact Hv|]. split; [intros a b; symmetry; apply Ha|]. split; [reflexivity|exact HR].
 Qed.
 
 Definition gen_confounders_statement : Prop :=
-  forall (g : digraph nat) (none estr x y fuel : nat),
+  forall (ord : pyorder) (g : digraph nat) (none estr x y fuel : nat),
+    pyorder_ok ord ->
     wf g -> acyclic g -> In x (verts g) -> In y (verts g) -> x <> y -> y <> none ->
     length (verts g) + 1 <= fuel ->
-    exists R C, gen_identify_confounders Nat.eqb none estr fuel g x y = Ret R /\
+    exists R C, gen_identify_confounders Nat.eqb none estr ord fuel g x y = Ret R /\
                 confounders Nat.eqb g x y = Some C /\ gen_seteq R C.
 
 Theorem gen_confounders_statement_holds : gen_confounders_statement.
 Proof.
-  intros g none estr x y fuel. exact (@gen_confounders_equiv nat Nat.eqb Nat.eqb_spec none estr g x y fuel).
+  intros ord g none estr x y fuel Hord.
+  exact (@gen_confounders_equiv nat Nat.eqb Nat.eqb_spec ord Hord none estr g x y fuel).
 Qed.
 
 (** [max_num_paths]: the model ignores it.  The generated function agrees with the model when
@@ -1232,45 +1388,47 @@ Qed.
     ValueError otherwise (unless the destination is an ancestor of the source, in which case
     both return the empty list before any enumeration). *)
 Definition gen_mediators_statement : Prop :=
-  forall (g : digraph nat) (none estr s d fuel mx : nat) ps,
+  forall (ord : pyorder) (g : digraph nat) (none estr s d fuel mx : nat) ps,
+    pyorder_ok ord ->
     wf g -> acyclic g -> In s (verts g) -> In d (verts g) -> s <> d -> d <> none ->
     length (verts g) + 1 <= fuel ->
     id_all_paths Nat.eqb g s d = Some ps ->
     ((memb Nat.eqb d (anc Nat.eqb g s) = false -> length ps <= mx + 1) ->
-     exists R M, gen_identify_mediators Nat.eqb none estr fuel g s d mx = Ret R /\
+     exists R M, gen_identify_mediators Nat.eqb none estr ord fuel g s d mx = Ret R /\
                  mediators Nat.eqb g s d = Some M /\ gen_seteq R M) /\
     (memb Nat.eqb d (anc Nat.eqb g s) = false -> mx + 1 < length ps ->
-     gen_identify_mediators Nat.eqb none estr fuel g s d mx = Exc PyValueError).
+     gen_identify_mediators Nat.eqb none estr ord fuel g s d mx = Exc PyValueError).
 
 Theorem gen_mediators_statement_holds : gen_mediators_statement.
 Proof.
-  intros g none estr s d fuel mx ps Hwf Hac Hs Hd Hsd Hnone Hfuel Eps. split.
-  - exact (@gen_mediators_equiv nat Nat.eqb Nat.eqb_spec none estr g s d fuel mx ps
+  intros ord g none estr s d fuel mx ps Hord Hwf Hac Hs Hd Hsd Hnone Hfuel Eps. split.
+  - exact (@gen_mediators_equiv nat Nat.eqb Nat.eqb_spec ord Hord none estr g s d fuel mx ps
              Hwf Hac Hs Hd Hsd Hnone Hfuel Eps).
-  - exact (@gen_mediators_raises nat Nat.eqb Nat.eqb_spec none estr g s d fuel mx ps
+  - exact (@gen_mediators_raises nat Nat.eqb Nat.eqb_spec ord Hord none estr g s d fuel mx ps
              Hwf Hac Hs Hd Hsd Hnone Hfuel Eps).
 Qed.
 
 Definition gen_instruments_statement : Prop :=
-  forall (g : digraph nat) (none estr s d fuel mx : nat),
+  forall (ord : pyorder) (g : digraph nat) (none estr s d fuel mx : nat),
+    pyorder_ok ord ->
     wf g -> acyclic g -> In s (verts g) -> In d (verts g) -> s <> d -> d <> none ->
     length (verts g) + 1 <= fuel ->
     (gp_inst_guard Nat.eqb g s d mx ->
-     exists R Is, gen_identify_instruments Nat.eqb none estr fuel g s d mx = Ret R /\
+     exists R Is, gen_identify_instruments Nat.eqb none estr ord fuel g s d mx = Ret R /\
                   instruments Nat.eqb g s d = Some Is /\ gen_seteq R Is) /\
     (forall C c ps,
        memb Nat.eqb d (anc Nat.eqb g s) = false ->
        confounders Nat.eqb g s d = Some C -> In c (gp_cand1 Nat.eqb g s C) ->
        id_all_paths Nat.eqb g c d = Some ps -> mx + 1 < length ps ->
-       gen_identify_instruments Nat.eqb none estr fuel g s d mx = Exc PyValueError).
+       gen_identify_instruments Nat.eqb none estr ord fuel g s d mx = Exc PyValueError).
 
 Theorem gen_instruments_statement_holds : gen_instruments_statement.
 Proof.
-  intros g none estr s d fuel mx Hwf Hac Hs Hd Hsd Hnone Hfuel. split.
-  - exact (@gen_instruments_equiv nat Nat.eqb Nat.eqb_spec none estr g s d fuel mx
+  intros ord g none estr s d fuel mx Hord Hwf Hac Hs Hd Hsd Hnone Hfuel. split.
+  - exact (@gen_instruments_equiv nat Nat.eqb Nat.eqb_spec ord Hord none estr g s d fuel mx
              Hwf Hac Hs Hd Hsd Hnone Hfuel).
   - intros C c ps.
-    exact (@gen_instruments_raises nat Nat.eqb Nat.eqb_spec none estr g s d fuel mx C c ps
+    exact (@gen_instruments_raises nat Nat.eqb Nat.eqb_spec ord Hord none estr g s d fuel mx C c ps
              Hwf Hac Hs Hd Hsd Hnone Hfuel).
 Qed.
 
@@ -1278,32 +1436,35 @@ Qed.
 
     Independent of the proofs above (it only runs the two sides): for every acyclic orientation
     of every simple graph on [0 .. n-1], [n <= 4], and every ordered pair of distinct nodes, the
-    three generated functions (fuel [n + 1], [None] = [n], [''] = [n + 1], [max_num_paths] = 25)
-    return normally and their results are equal AS SETS to the model's. *)
-Definition gen_check_pair (n : nat) (g : digraph nat) (x y : nat) : bool :=
-  match gen_identify_confounders Nat.eqb n (S n) (n + 1) g x y, confounders Nat.eqb g x y with
+    three generated functions (fuel [n + 1], [None] = [n], [''] = [n + 1], [max_num_paths] = 25),
+    run with the iteration order [ord], return normally and their results are equal AS SETS to the
+    model's.  Checked for the two concrete orders of PyRt.v (list order; reversed at odd sites). *)
+Definition gen_check_pair (ord : pyorder) (n : nat) (g : digraph nat) (x y : nat) : bool :=
+  match gen_identify_confounders Nat.eqb n (S n) ord (n + 1) g x y, confounders Nat.eqb g x y with
   | Ret R, Some C => seteqb Nat.eqb R C
   | _, _ => false
   end
-  && match gen_identify_instruments Nat.eqb n (S n) (n + 1) g x y 25, instruments Nat.eqb g x y with
+  && match gen_identify_instruments Nat.eqb n (S n) ord (n + 1) g x y 25, instruments Nat.eqb g x y with
      | Ret R, Some Is => seteqb Nat.eqb R Is
      | _, _ => false
      end
-  && match gen_identify_mediators Nat.eqb n (S n) (n + 1) g x y 25, mediators Nat.eqb g x y with
+  && match gen_identify_mediators Nat.eqb n (S n) ord (n + 1) g x y 25, mediators Nat.eqb g x y with
      | Ret R, Some M => seteqb Nat.eqb R M
      | _, _ => false
      end.
 
-Definition gen_check_graph (n : nat) (arcs : list (nat * nat)) : bool :=
+Definition gen_check_graph (ord : pyorder) (n : nat) (arcs : list (nat * nat)) : bool :=
   let g := ds_g n arcs in
   negb (acyclicb Nat.eqb g)
-  || forallb (fun x => forallb (fun y => Nat.eqb x y || gen_check_pair n g x y) (seq 0 n)) (seq 0 n).
+  || forallb (fun x => forallb (fun y => Nat.eqb x y || gen_check_pair ord n g x y) (seq 0 n)) (seq 0 n).
 
 Theorem gen_equiv_le4 :
-  forall n, In n [1; 2; 3; 4] -> forallb (gen_check_graph n) (ds_orient (ds_upairs n)) = true.
+  forall n, In n [1; 2; 3; 4] ->
+    forallb (gen_check_graph pyorder_id n) (ds_orient (ds_upairs n)) = true /\
+    forallb (gen_check_graph pyorder_alt n) (ds_orient (ds_upairs n)) = true.
 Proof.
   intros n H; simpl in H.
-  repeat (destruct H as [H|H]; [subst n; vm_cast_no_check (eq_refl true)|]); contradiction.
+  repeat (destruct H as [H|H]; [subst n; split; vm_cast_no_check (eq_refl true)|]); contradiction.
 Qed.
 
 (** * 12. Examples: the hypotheses are satisfiable with non-trivial results
@@ -1313,9 +1474,9 @@ Qed.
 
 (** 8 nodes, source 4, destination 5: identify_confounders = {6}, identify_instruments = {1, 3}. *)
 Example gen_ex_run :
-  gen_identify_confounders Nat.eqb 8 9 9 ig_ex 4 5 = Ret [6] /\
-  gen_identify_instruments Nat.eqb 8 9 9 ig_ex 4 5 25 = Ret [1; 3] /\
-  gen_identify_mediators Nat.eqb 8 9 9 ig_ex 4 5 25 = Ret [].
+  gen_identify_confounders Nat.eqb 8 9 pyorder_id 9 ig_ex 4 5 = Ret [6] /\
+  gen_identify_instruments Nat.eqb 8 9 pyorder_id 9 ig_ex 4 5 25 = Ret [1; 3] /\
+  gen_identify_mediators Nat.eqb 8 9 pyorder_id 9 ig_ex 4 5 25 = Ret [].
 Proof. vm_compute. repeat split; reflexivity. Qed.
 
 Example gen_ex_guard : gp_inst_guard Nat.eqb ig_ex 4 5 25.
@@ -1324,13 +1485,21 @@ Proof.
   vm_compute in Hc. destruct Hc as [<-|[<-|[<-|[]]]]; vm_compute in Eps; injection Eps as <-; simpl; lia.
 Qed.
 
+(** The iteration order is visible in the returned LISTS (and in the order of the edges of the
+    graph that the helper hands back), not in the returned sets. *)
+Example gen_ex_other_order :
+  gen_identify_instruments Nat.eqb 8 9 pyorder_alt 9 ig_ex 4 5 25 = Ret [3; 1] /\
+  gen_identify_markov_boundary Nat.eqb 8 9 pyorder_id ig_ex 4 = Ret [7; 6; 3; 2] /\
+  gen_identify_markov_boundary Nat.eqb 8 9 pyorder_alt ig_ex 4 = Ret [2; 3; 6; 7].
+Proof. vm_compute. repeat split; reflexivity. Qed.
+
 (** [gen_instruments_equiv] applies to it (and gives a non-empty set). *)
 Example gen_ex_instruments_by_theorem :
-  exists R Is, gen_identify_instruments Nat.eqb 8 9 9 ig_ex 4 5 25 = Ret R /\
+  exists R Is, gen_identify_instruments Nat.eqb 8 9 pyorder_id 9 ig_ex 4 5 25 = Ret R /\
                instruments Nat.eqb ig_ex 4 5 = Some Is /\ gen_seteq R Is /\ In 1 Is.
 Proof.
   destruct ig_ex_ok as [Hwf Hac].
-  destruct (@gen_instruments_equiv nat Nat.eqb Nat.eqb_spec 8 9 ig_ex 4 5 9 25 Hwf Hac)
+  destruct (@gen_instruments_equiv nat Nat.eqb Nat.eqb_spec pyorder_id pyorder_id_ok 8 9 ig_ex 4 5 9 25 Hwf Hac)
     as (R & I & HR & HI & HRI).
   - vm_compute; auto 10.
   - vm_compute; auto 10.
@@ -1344,11 +1513,12 @@ Qed.
 
 (** docstring of [identify_mediators] (x=0 m=1 y=2 u=3): the mediator m. *)
 Example gen_ex_mediators_by_theorem :
-  exists R M, gen_identify_mediators Nat.eqb 4 5 5 ex_med 0 2 25 = Ret R /\
+  exists R M, gen_identify_mediators Nat.eqb 4 5 pyorder_id 5 ex_med 0 2 25 = Ret R /\
               mediators Nat.eqb ex_med 0 2 = Some M /\ gen_seteq R M /\ In 1 M.
 Proof.
   destruct ex_med_ok as [Hwf Hac].
-  destruct (@gen_mediators_equiv nat Nat.eqb Nat.eqb_spec 4 5 ex_med 0 2 5 25 [[0; 1; 2]; [0; 2]] Hwf Hac)
+  destruct (@gen_mediators_equiv nat Nat.eqb Nat.eqb_spec pyorder_id pyorder_id_ok 4 5 ex_med 0 2 5 25
+              [[0; 1; 2]; [0; 2]] Hwf Hac)
     as (R & M & HR & HM & HRM).
   - vm_compute; auto 10.
   - vm_compute; auto 10.
@@ -1365,11 +1535,11 @@ Qed.
     [max_num_paths = 25] the Python function raises ValueError; with 26 it returns {i}
     (and [identify_mediators(s, d)] behaves in the same way). *)
 Example gen_ex_layers_run :
-  gen_identify_instruments Nat.eqb 12 13 13 ig_layers 1 11 25 = Exc PyValueError /\
-  gen_identify_instruments Nat.eqb 12 13 13 ig_layers 1 11 26 = Ret [0] /\
-  gen_identify_mediators Nat.eqb 12 13 13 ig_layers 1 11 25 = Exc PyValueError /\
-  gen_identify_mediators Nat.eqb 12 13 13 ig_layers 1 11 26 = Ret [] /\
-  gen_identify_mediators Nat.eqb 12 13 13 ig_layers 0 11 26 = Ret [1].
+  gen_identify_instruments Nat.eqb 12 13 pyorder_id 13 ig_layers 1 11 25 = Exc PyValueError /\
+  gen_identify_instruments Nat.eqb 12 13 pyorder_id 13 ig_layers 1 11 26 = Ret [0] /\
+  gen_identify_mediators Nat.eqb 12 13 pyorder_id 13 ig_layers 1 11 25 = Exc PyValueError /\
+  gen_identify_mediators Nat.eqb 12 13 pyorder_id 13 ig_layers 1 11 26 = Ret [] /\
+  gen_identify_mediators Nat.eqb 12 13 pyorder_id 13 ig_layers 0 11 26 = Ret [1].
 Proof. vm_compute. repeat split; reflexivity. Qed.
 
 (** the hypotheses of [gen_instruments_raises] hold for it *)
@@ -1382,30 +1552,32 @@ Proof. vm_compute. repeat split; auto. Qed.
 (** Fuel exhaustion is visible in the generated code too: with too little fuel the helper
     answers [Fuel], never a normal looking value. *)
 Example gen_ex_fuel_short :
-  gen__identify_confounders_no_checks_no_descendant_pruning_networkx Nat.eqb 1
+  gen__identify_confounders_no_checks_no_descendant_pruning_networkx Nat.eqb pyorder_id 1
     (id_mk 3 [(0, 1); (1, 2)]) 2 0 = Fuel.
 Proof. vm_compute. reflexivity. Qed.
 
 (** The helper hands the graph back with its edges in a different ORDER (removed edges are
     re-added at the end), which is why the restore is stated up to [geq]. *)
 Example gen_ex_restore_order :
-  gen__identify_confounders_no_checks_no_descendant_pruning_networkx Nat.eqb 5 ex_conf 2 3
+  gen__identify_confounders_no_checks_no_descendant_pruning_networkx Nat.eqb pyorder_id 5 ex_conf 2 3
   = Ret ({| verts := [0; 1; 2; 3]; arcs := [(0, 1); (1, 2); (1, 3); (2, 3)] |}, [1]) /\
-  gen__identify_confounders_no_checks_no_descendant_pruning_networkx Nat.eqb 5
+  gen__identify_confounders_no_checks_no_descendant_pruning_networkx Nat.eqb pyorder_id 5
     (id_mk 4 [(2, 3); (0, 1); (1, 2); (1, 3)]) 2 3
   = Ret ({| verts := [0; 1; 2; 3]; arcs := [(0, 1); (1, 2); (1, 3); (2, 3)] |}, [1]).
 Proof. vm_compute. split; reflexivity. Qed.
 
 (** * 13. [identify_markov_boundary] *)
 Definition gen_markov_boundary_statement : Prop :=
-  forall (g : digraph nat) (none estr x : nat),
+  forall (ord : pyorder) (g : digraph nat) (none estr x : nat),
+    pyorder_ok ord ->
     wf g -> acyclic g -> In x (verts g) -> x <> none -> x <> estr ->
-    exists R, gen_identify_markov_boundary Nat.eqb none estr g x = Ret R /\
+    exists R, gen_identify_markov_boundary Nat.eqb none estr ord g x = Ret R /\
               gen_seteq R (markov_boundary Nat.eqb g x).
 
 Theorem gen_markov_boundary_statement_holds : gen_markov_boundary_statement.
 Proof.
-  intros g none estr x. exact (@gen_markov_boundary_equiv nat Nat.eqb Nat.eqb_spec none estr g x).
+  intros ord g none estr x Hord.
+  exact (@gen_markov_boundary_equiv nat Nat.eqb Nat.eqb_spec ord Hord none estr g x).
 Qed.
 
 (** "the function returns a list for every node of a DAG" is FALSE of the Python code: the node
@@ -1416,7 +1588,7 @@ Qed.
 Definition gen_markov_total_statement : Prop :=
   forall (g : digraph nat) (none estr x : nat),
     wf g -> acyclic g -> In x (verts g) -> ~ In none (verts g) ->
-    exists R, gen_identify_markov_boundary Nat.eqb none estr g x = Ret R.
+    exists R, gen_identify_markov_boundary Nat.eqb none estr pyorder_id g x = Ret R.
 
 Theorem gen_markov_total_refuted : ~ gen_markov_total_statement.
 Proof.
@@ -1430,8 +1602,8 @@ Proof.
 Qed.
 
 Example gen_ex_markov_empty_identifier :
-  gen_identify_markov_boundary Nat.eqb 9 0 (id_mk 3 [(0, 2); (1, 2)]) 1 = Ret [2; 0] /\
-  gen_identify_markov_boundary Nat.eqb 9 0 (id_mk 3 [(0, 2); (1, 2)]) 0 = Exc PyValueError.
+  gen_identify_markov_boundary Nat.eqb 9 0 pyorder_id (id_mk 3 [(0, 2); (1, 2)]) 1 = Ret [2; 0] /\
+  gen_identify_markov_boundary Nat.eqb 9 0 pyorder_id (id_mk 3 [(0, 2); (1, 2)]) 0 = Exc PyValueError.
 Proof. vm_compute. split; reflexivity. Qed.
 
 (** docstring of [identify_markov_boundary]: u v b c a d e w f x y g z = 0 .. 12; the boundary
@@ -1440,28 +1612,71 @@ Definition gen_mb_doc : digraph nat :=
   id_mk 13 [(0, 2); (1, 3); (2, 4); (3, 4); (4, 5); (4, 6); (7, 8); (8, 5); (5, 9); (5, 10);
             (11, 6); (11, 12)].
 Example gen_ex_markov_doc :
-  isort Nat.leb (match gen_identify_markov_boundary Nat.eqb 13 14 gen_mb_doc 4 with
+  isort Nat.leb (match gen_identify_markov_boundary Nat.eqb 13 14 pyorder_id gen_mb_doc 4 with
                  | Ret l => l | _ => [] end) = [2; 3; 5; 6; 8; 11] /\
   isort Nat.leb (markov_boundary Nat.eqb gen_mb_doc 4) = [2; 3; 5; 6; 8; 11].
 Proof. vm_compute. split; reflexivity. Qed.
 
 (** * 14. [identify_colliders] *)
 Definition gen_colliders_statement : Prop :=
-  forall (g : mgraph nat) (u : bool),
-    exists R, gen_identify_colliders Nat.eqb g u = Ret R /\
+  forall (ord : pyorder) (g : mgraph nat) (u : bool),
+    pyorder_ok ord ->
+    exists R, gen_identify_colliders Nat.eqb ord g u = Ret R /\
               gen_seteq R (identify_colliders Nat.eqb (medges g) (mnodes g) u).
 
 Theorem gen_colliders_statement_holds : gen_colliders_statement.
-Proof. intros g u. exact (@gen_colliders_equiv nat Nat.eqb Nat.eqb_spec g u). Qed.
+Proof. intros ord g u Hord. exact (@gen_colliders_equiv nat Nat.eqb Nat.eqb_spec ord Hord g u). Qed.
 
 (** a -> c <- b, c <> d, d -- e, a -> e: c is the only collider, and it is unshielded; with the
     extra edge a -- b it is shielded (values of the real library). *)
 Example gen_ex_colliders :
-  gen_identify_colliders Nat.eqb
+  gen_identify_colliders Nat.eqb pyorder_id
     {| mnodes := seq 0 5; medges := [(0, 2, Dir); (1, 2, Dir); (2, 3, Bi); (3, 4, Und); (0, 4, Dir)] |} true
   = Ret [2] /\
-  gen_identify_colliders Nat.eqb
+  gen_identify_colliders Nat.eqb pyorder_id
     {| mnodes := seq 0 3; medges := [(0, 2, Dir); (1, 2, Dir); (0, 1, Und)] |} true = Ret [] /\
-  gen_identify_colliders Nat.eqb
+  gen_identify_colliders Nat.eqb pyorder_id
     {| mnodes := seq 0 3; medges := [(0, 2, Dir); (1, 2, Dir); (0, 1, Und)] |} false = Ret [2].
 Proof. vm_compute. repeat split; reflexivity. Qed.
+
+(** * 15. The remaining theorems applied to concrete inputs (non-vacuity) *)
+
+(** [gen_helper_equiv] on the docstring graph of [identify_confounders], with the non-trivial
+    iteration order: the helper gives the graph back (same nodes, same edges) with {u} = {1}. *)
+Example gen_ex_helper_by_theorem :
+  exists g' R,
+    gen__identify_confounders_no_checks_no_descendant_pruning_networkx Nat.eqb pyorder_alt 5 ex_conf 2 3
+    = Ret (g', R) /\ verts g' = verts ex_conf /\ (forall a b, arc g' a b <-> arc ex_conf a b) /\
+    gen_seteq R [1].
+Proof.
+  destruct ex_conf_ok as [Hwf Hac].
+  destruct (@gen_helper_equiv pyorder_alt ex_conf 2 3 5 pyorder_alt_ok Hwf Hac) as (g' & R & C & H1 & H2 & H3 & H4 & H5).
+  - vm_compute. lia.
+  - exists g', R. split; [exact H1|]. split; [exact H2|]. split; [exact H3|].
+    rewrite ex_conf_fuel in H4. injection H4 as <-. exact H5.
+Qed.
+
+Example gen_mb_doc_ok : wf gen_mb_doc /\ acyclic gen_mb_doc.
+Proof.
+  split.
+  - apply (@id_wfb_wf nat Nat.eqb Nat.eqb_spec). vm_compute. reflexivity.
+  - apply (@id_rank_acyclic nat gen_mb_doc
+             (fun n => match n with
+                       | 0 | 1 | 7 | 11 => 0 | 2 | 3 | 8 => 1 | 4 => 2 | 5 | 6 | 12 => 3 | _ => 4
+                       end)).
+    vm_compute. reflexivity.
+Qed.
+
+(** [gen_markov_boundary_equiv] on the docstring graph of [identify_markov_boundary]. *)
+Example gen_ex_markov_by_theorem :
+  exists R, gen_identify_markov_boundary Nat.eqb 13 14 pyorder_alt gen_mb_doc 4 = Ret R /\
+            gen_seteq R (markov_boundary Nat.eqb gen_mb_doc 4) /\ In 8 R.
+Proof.
+  destruct gen_mb_doc_ok as [Hwf Hac].
+  destruct (@gen_markov_boundary_statement_holds pyorder_alt gen_mb_doc 13 14 4 pyorder_alt_ok Hwf Hac)
+    as (R & HR & HRM).
+  - vm_compute. auto 20.
+  - discriminate.
+  - discriminate.
+  - exists R. split; [exact HR|]. split; [exact HRM|]. apply HRM. vm_compute. auto 20.
+Qed.
